@@ -306,7 +306,8 @@ def chain(ctx, rid, pat, steps, why="", variants=None, inst_re=None, mode="dom",
             continue
         good = True
         for i in range(len(steps) - 1):
-            if mode == "dom":
+            mode_i = steps[i + 1].get("rel", mode)
+            if mode_i == "dom":
                 if steps[i + 1].get("any"):
                     sel = [b for b in evs[i + 1] if any(fn.before(a, b) for a in evs[i])]
                     if not sel:
@@ -321,7 +322,7 @@ def chain(ctx, rid, pat, steps, why="", variants=None, inst_re=None, mode="dom",
                         ctx.bad(rid, inst0, "%s at line %d is not preceded on every path by %s. %s" % (
                             fn.expr(b)[:80], fn.nodes[b].get("l", 0), mdesc(steps[i]), why), fn.where(b), fn=fn)
                         break
-            elif mode == "nobefore":
+            elif mode_i == "nobefore":
                 # no event of step i can execute after an event of step i+1
                 for b in evs[i + 1]:
                     for a in evs[i]:
@@ -383,3 +384,37 @@ def absent(ctx, rid, pat, m, why="", variants=None, inst_re=None, label=None):
         ctx.check(not evs, rid, inst0, "no event %s" % mdesc(m),
                   "%s must not contain %s (found at line %s). %s" % (pat, mdesc(m), ",".join(str(fn.nodes[e].get("l")) for e in evs), why),
                   fn.where(evs[0]) if evs else fn.where(), fn=fn)
+
+
+def must_pass(fn, target_nid, via_events):
+    """every path from the function entry to `target` executes one of via_events (checked by deleting them and testing reachability).
+    Returns (ok, offending path)"""
+    pos = fn.pos()
+    pt = pos.get(target_nid)
+    if pt is None:
+        return True, []
+    via = [pos[v] for v in via_events if v in pos]
+    # same block, earlier index
+    blocked_blocks = set()
+    for pv in via:
+        if pv[0] == pt[0] and pv[1] < pt[1]:
+            return True, []
+        if pv[0] != pt[0]:
+            blocked_blocks.add(pv[0])
+    if fn.entry in blocked_blocks:
+        return True, []
+    prev = {fn.entry: None}
+    q = [fn.entry]
+    while q:
+        x = q.pop(0)
+        if x == pt[0]:
+            p = [x]
+            while prev[p[-1]] is not None:
+                p.append(prev[p[-1]])
+            return False, list(reversed(p))
+        for s_ in fn.blocks[x]["succ"]:
+            if s_ is None or s_ in prev or s_ in blocked_blocks:
+                continue
+            prev[s_] = x
+            q.append(s_)
+    return True, []
